@@ -32,6 +32,7 @@ CONSTANTS
  CheckIdent = TRUE
  RelayOnce = TRUE
  CandsGuard = TRUE
+ DataGuard = TRUE
  SuspendJoin = TRUE
  JoinCacheFirst = TRUE
  AutoTimers = TRUE
